@@ -39,7 +39,8 @@ def codecItem (S : Schema) (name : String) (fuel : Nat) (ty : Option Ty) (j : Js
       let vj (o : Option (Val × Bits)) : Json :=
         match o with | some p => J.valToJson p.1 | none => Json.mkObj [("none", true)]
       out := out ++ [("spec_dec", match decBytes t bs with | some v => J.valToJson v | none => Json.mkObj [("none", true)]),
-                     ("cpp_dec", vj (Cpp.cppDec t (unpack bs))), ("dyn_dec", vj (Cpp.dynDec t (unpack bs)))]
+                     ("cpp_dec", vj (Cpp.cppDec t (unpack bs))), ("dyn_dec", vj (Cpp.dynDec t (unpack bs))),
+                     ("reads", reads t (unpack bs)), ("weight", weight t), ("pos_width", Json.bool (PosWidth t))]
     | none => pure ()
     out := out ++ [("py_dec", exceptJson J.valToJson (pyDecode S fuel name bs))]
   | .error _ => pure ()
